@@ -61,6 +61,10 @@ def cases(tier, seed):
             continue
         out.append({'name': 'repo-' + nm[6:-4], 'kind': 'repo', 'input': nm,
                     'seed': [seed, 114, n]})
+    if tier == 'thorough':
+        # the repository's own test-suite as one more workload
+        out.insert(0, {'name': 'repo-tests', 'kind': 'repotests',
+                       'seed': [seed, 0, 0]})
     return out
 
 
@@ -202,23 +206,9 @@ def check_unrodded(res, reg, T_c, temps, t_gap, h_gap, adiabatic, k_used,
     return int(np.sum(np.abs(Tsi - Tso) > 1e-3))
 
 
-def run_sweep(case, res):
-    rng = np.random.default_rng(case['seed'])
-    P = None
-    if case['kind'] == 'repo':
-        feats = {'repo_input': case['input'], 'tdep': True}
-    elif case['kind'] == 'core':
-        P, feats = wl.core_problem(rng, n_ring=2, tdep=(rng.random() < 0.4),
-                                   gap=wl.choose(rng, ['flow', 'no_flow',
-                                                       'duct_average']),
-                                   empty_frac=0.2, max_rings=4, length=0.3,
-                                   vel_range=(0.2, 5.0))
-    else:
-        P, feats = wl.single_assembly(rng, coolant_pool=True,
-                                      max_rings=5, length=0.3,
-                                      vel=wl.loguniform(rng, 0.05, 6.0))
-    key = {'gap': (P['gap_model'] if P else 'repo'), 'tdep': feats['tdep']}
-    nt = [0]
+def step_contract(res, key, nt=None):
+    """The wall-solve contract as a StepMonitor callback."""
+    nt = nt if nt is not None else [0]
 
     def on_step(rec):
         reg = rec['reg']
@@ -252,6 +242,28 @@ def run_sweep(case, res):
             nt[0] += check_unrodded(res, reg, Tc, rec['post'], rec['t_gap'],
                                     rec['h_gap'], rec['adiabatic'], k_used,
                                     htc, key)
+
+    return on_step
+
+
+def run_sweep(case, res):
+    rng = np.random.default_rng(case['seed'])
+    P = None
+    if case['kind'] == 'repo':
+        feats = {'repo_input': case['input'], 'tdep': True}
+    elif case['kind'] == 'core':
+        P, feats = wl.core_problem(rng, n_ring=2, tdep=(rng.random() < 0.4),
+                                   gap=wl.choose(rng, ['flow', 'no_flow',
+                                                       'duct_average']),
+                                   empty_frac=0.2, max_rings=4, length=0.3,
+                                   vel_range=(0.2, 5.0))
+    else:
+        P, feats = wl.single_assembly(rng, coolant_pool=True,
+                                      max_rings=5, length=0.3,
+                                      vel=wl.loguniform(rng, 0.05, 6.0))
+    key = {'gap': (P['gap_model'] if P else 'repo'), 'tdep': feats['tdep']}
+    nt = [0]
+    on_step = step_contract(res, key, nt)
 
     with drive.scratch() as d, Hooks() as hk:
         if P is None:
@@ -357,6 +369,18 @@ def run_direct(case, res):
 
 def run_case(case):
     res = Result(case)
+    if case['kind'] == 'repotests':
+        got, tail = drive.run_repo_tests(['c11'])
+        if 'c11' not in got:
+            res.status('error', 'test-suite run left no monitor output: '
+                       + tail)
+            return res
+        res.d.update({k: got['c11'][k] for k in ('viol', 'counts', 'stats')})
+        res.tag('repo_tests_workload')
+        res.sample({'case': case, 'pytest': tail})
+        if sum(res.d['counts'].values()) > 1000:
+            res.nontrivial('repo-tests')
+        return res
     try:
         if case['kind'] == 'direct':
             feats = run_direct(case, res)
